@@ -157,6 +157,11 @@ func TestPreconfConc(t *testing.T) {
 				wg.Add(1)
 				go func(r int) {
 					defer wg.Done()
+					defer func() {
+						if p := recover(); p != nil {
+							report("conc:reader-panic", fmt.Sprintf("reader %d panicked inside the pre-confirmed read path: %v", r, p), nil, nil)
+						}
+					}()
 					rng := rand.New(rand.NewSource(seed*1_000_003 + int64(bi*1000+it*10+r)))
 					ring := []held{}
 					local := []rEvent{}
@@ -242,7 +247,7 @@ func TestPreconfConc(t *testing.T) {
 				case "HeadAdvance", "HeadRevert":
 					headVar.Store(int64(len(st.Canon)))
 					continue
-				case "Snapshot":
+				case "Snapshot", "ReaderChain":
 					continue
 				}
 				var m *mismatch
